@@ -85,10 +85,10 @@ func c02R6(c *Ctx, rule string) {
 				construct := typ + ".buf." + name + " in " + shortFn(f)
 				switch {
 				case bufReadOnlyMethods[name]:
-				case name == "Read" && topFn(f) == rd:
+				case name == "Read" && (topFn(f) == rd || p.inUnit(rd, f)):
 					nR++
 					c.OK(rule, construct, c.at(i), "consumed by the pipe's Read")
-				case name == "Write" && topFn(f) == wr:
+				case name == "Write" && (topFn(f) == wr || p.inUnit(wr, f)):
 					nW++
 					c.OK(rule, construct, c.at(i), "appended by the pipe's Write")
 				case (name == "Reset" || name == "Truncate") && emptyGuard(i):
